@@ -40,6 +40,8 @@ def path(steps, abs_=False, start=None):
 
 
 def filt(e, *preds):
+    if e.get("op") == "filter":          # X[p][q] is ONE FilterExpr with two predicates
+        return {"op": "filter", "e": e["e"], "preds": e["preds"] + list(preds)}
     return {"op": "filter", "e": e, "preds": list(preds)}
 
 
